@@ -34,6 +34,21 @@ class MacroModel:
                 self.budget = st
                 break
         if self.budget is None:
+            # the expansion step may have been extracted into a helper that receives the token stream: the rules then run on a
+            # copy of apply_macros with that helper (called from this one place only) put back
+            from .inline import inlined
+            def takes_stream(h, call):
+                return any(self.is_input(a) for a in call.get('args', []))
+            am2, names = inlined(self.facts, self.am, rounds=2, want=takes_stream)
+            if names:
+                for st in walk_stmts(am2['body']):
+                    if st['k'] == 'for' and self.mutations(st['body']):
+                        self.budget = st
+                        break
+                if self.budget is not None:
+                    self.am = am2
+                    self.inlined_helpers = names
+        if self.budget is None:
             raise AnalysisBroken('apply_macros: no for-loop mutating the token stream (anchor vanished)')
         self.inner = None
         for st in walk_stmts(self.budget['body']):
@@ -284,8 +299,46 @@ def c11(rep, tier):
                           'MACRO_APPLY_REACHED_MAX_PASSES', floor=2)
     # the reset dominates every splice and every setting of the flag within the pass
     okreset = flag is not None and bool(resets) and any(all(g.dominates(rv, x) for x in mut_evs + sets) for rv in resets)
-    B.check(okreset, 'apply_macros: flag reset', '%s = false at the start of the pass, before any splice' % (flag['name'] if flag else 'flag'),
-            'the change flag is not reset per pass', W(am, mm.budget, mm.facts))
+    reset_how = '%s = false at the start of the pass, before any splice' % (flag['name'] if flag else 'flag')
+    if not okreset and flag is not None and bud_cond is not None and mut_evs:
+        # another way of keeping the flag right (e.g. `changed = expand_once(..)` after inlining): follow every path through one pass,
+        # starting with the flag set (as the previous pass may have left it), and look at the pair (a splice happened, value of the flag)
+        # wherever the pass ends - they have to agree
+        mut_ids = set(id(mv.e) for mv in mut_evs)
+        ends = set()
+        seen_s = set()
+        starts = [b for b in bud_cond.succ if b.kind == 'branch' and b.label is True] or list(bud_cond.succ)
+        work = [(n, False, True) for n in starts]
+        is_flag = lambda z: z.get('k') == 'ref' and z.get('d') == flag.get('d')
+        while work:
+            n, spliced, fv = work.pop()
+            if n.id == bud_cond.id or (n.id not in body_ids and n.kind not in ('branch',) and n not in starts):
+                ends.add((spliced, fv))
+                continue
+            if (n.id, spliced, fv) in seen_s:
+                continue
+            seen_s.add((n.id, spliced, fv))
+            if n.kind == 'branch' and n.of is not None and n.of.exprs and isinstance(n.label, bool) and fv in (True, False):
+                if guard_implies(g.expanded(n.of.exprs[0]), n.label, is_flag, (not fv)):
+                    continue
+            for ev2 in n.events:
+                e2 = ev2.e
+                if id(e2) in mut_ids:
+                    spliced = True
+                if e2.get('k') == 'assign' and strip_casts(e2['l']).get('d') == flag.get('d'):
+                    v2 = strip_casts(e2['r']).get('v')
+                    fv = True if v2 is True else (False if v2 is False else '?')
+            for x in n.succ:
+                work.append((x, spliced, fv))
+        if ends and all(fv in (True, False) and fv == sp for sp, fv in ends):
+            okreset = True
+            reset_how = 'at the end of every path through a pass %s is true exactly when a splice happened on that path (%d end states)' % (flag['name'], len(ends))
+        else:
+            bad_ends = sorted((sp, str(fv)) for sp, fv in ends if not (fv in (True, False) and fv == sp))
+            reset_why = 'the change flag is not reset per pass: a pass can end with %s' % '; '.join(
+                '%s = %s although %s' % (flag['name'], fv, 'a splice happened' if sp else 'no splice happened in it') for sp, fv in bad_ends[:2])
+    B.check(okreset, 'apply_macros: flag reset', reset_how,
+            locals().get('reset_why', 'the change flag is not reset per pass'), W(am, mm.budget, mm.facts))
     okerr = False
     for ev in g.calls():
         if is_call(ev.e, '::push_back') and 'errors' in show(ev.e['obj']) and 'MACRO_APPLY_REACHED_MAX_PASSES' in show(ev.e):
@@ -671,7 +724,8 @@ def c10(rep, tier):
         D.unknown('apply_macros: pass argument', 'get_replacement takes no pass number: uniqueness mechanism differs from the one this rule knows')
         return
     pi = [i for i, p in enumerate(gr['params']) if p.get('d') == passp[0]['d']][0]
-    okd = len(calls) == 1 and cv is not None and len(calls[0]['args']) > pi and strip_casts(calls[0]['args'][pi]).get('d') == cv['d']
+    okd = len(calls) == 1 and cv is not None and len(calls[0]['args']) > pi and \
+        (strip_casts(calls[0]['args'][pi]).get('d') == cv['d'] or (strip_casts(mm.M.origin(mm.am, calls[0]['args'][pi])) or {}).get('d') == cv['d'])
     # ... and the instantiation happens once per counted pass: it is enclosed by the budget loop and the priority-bin loop only
     if calls:
         def loops_around(root, target, acc=()):
@@ -701,7 +755,8 @@ def c09(rep, tier):
     am, gr = mm.am, mm.gr
     rep.analysed(am, gr)
     A = rep.rule('C09.a', 'ties between macros of one priority are broken by (start ascending, length descending) with a strict weak order', floor=1)
-    comps = [(f, k, h) for f, k, h in cmpeval.find_comparators(mm.facts) if k == 'std::min_element' and h is not None and h['q'] == 'Theo::apply_macros']
+    comps = [(f, k, h) for f, k, h in cmpeval.find_comparators(mm.facts) if k == 'std::min_element' and h is not None and
+             (h['q'] == 'Theo::apply_macros' or h['q'] in getattr(mm, 'inlined_helpers', []))]
     if len(comps) != 1:
         A.unknown('apply_macros: min_element comparator', '%d comparators found' % len(comps))
     else:
@@ -802,14 +857,28 @@ def c09(rep, tier):
     if len(er) != 1 or len(ins) != 1:
         D.unknown('apply_macros: splice', '%d erase / %d insert' % (len(er), len(ins)))
     else:
-        def pos(e):
-            """input.begin() + X (+ Y) -> list of addends after begin()"""
+        def pos(e, depth=0):
+            """input.begin() + X (+ Y) -> list of addends after begin(); locals holding such an iterator are looked through, and the
+            iterator that erase(first, last) returns stands for `first`"""
             e = strip_conv(e)
             adds = []
-            while e is not None and e.get('k') == 'call' and e.get('op') == '+':
-                a = e['args'][0] if e.get('obj') is not None else e['args'][1]
-                adds.append(show(strip_casts(a)))
-                e = strip_conv(e['obj'] if e.get('obj') is not None else e['args'][0])
+            while e is not None and depth < 6:
+                if e.get('k') == 'call' and e.get('op') == '+':
+                    a = e['args'][0] if e.get('obj') is not None else e['args'][1]
+                    adds.append(show(strip_casts(a)))
+                    e = strip_conv(e['obj'] if e.get('obj') is not None else e['args'][0])
+                    continue
+                if e.get('k') == 'ref' and e.get('dk') == 'var':
+                    o = mm.M.origin(am, e)
+                    if o is not None and o is not e:
+                        e = strip_conv(o)
+                        depth += 1
+                        continue
+                if is_call(e, '::erase') and e.get('obj') is not None and mm.is_input(e['obj']) and e.get('args'):
+                    e = strip_conv(e['args'][0])
+                    depth += 1
+                    continue
+                break
             isb = is_call(e, '::begin') and mm.is_input(e['obj'])
             return isb, list(reversed(adds))
         b0, a0 = pos(er[0]['args'][0])
